@@ -295,7 +295,77 @@ Definition add_object (s : state) (ob : id) : option state :=
 (* ---- System._addUnprocessedModule / _handleDuplicateModule (mod is already constructed) ---- *)
 Fixpoint remove1 (x : id) (l : list id) : list id :=           (* list.remove(x): the first occurrence *)
   match l with [] => [] | y :: t => if N.eqb y x then t else y :: remove1 x t end.
+
+(* replaced = [first]; while replaced: mod = replaced.pop(); ...; replaced.extend(o for o in mod.contents.values()
+   if isinstance(o, Module)) : the modules reachable from `first` through modules (the order of the visits does not
+   matter for what follows; a cyclic `contents` would make the Python loop run forever: out of fuel) *)
+Fixpoint modtree_f (fuel : nat) (st : id -> obj) (o : id) : option (list id) :=
+  match fuel with
+  | O => None
+  | S f => match oconcat (modtree_f f st)
+                         (map snd (filter (fun nc => is_module (ocl (st (snd nc)))) (ocont (st o)))) with
+           | Some l => Some (o :: l)
+           | None => None
+           end
+  end.
+
 Definition add_unprocessed_module (s : state) (md : id) : option state :=
+  match fullpath s md with
+  | None => None
+  | Some fn =>
+    match rget fn (allobj s) with
+    | None =>
+      (* self.unprocessed_modules.append(mod); self.addObject(mod) *)
+      add_object (set_unproc s (unproc s ++ [md])) md
+    | Some first =>
+      if negb (is_module (ocl (store s first))) then None            (* assert isinstance(first, Module) *)
+      else
+        (* _handleDuplicateModule(first, dup): C-modules win (never here); packages win; else the last wins *)
+        if ocls_eqb (ocl (store s first)) CPackage && negb (ocls_eqb (ocl (store s md)) CPackage)
+        then Some s
+        else
+          match remove_tree s first with                            (* self._remove(first) *)
+          | None => None
+          | Some m1 =>
+            (* the modules discovered below a replaced package go away with it:
+               for each of them `if mod in self.unprocessed_modules: self.unprocessed_modules.remove(mod)` *)
+            match modtree_f (S (depthb s)) (store s) first with
+            | None => None
+            | Some mods =>
+              let s0 := set_unproc (set_allobj s m1) (fold_left (fun u m => remove1 m u) mods (unproc s)) in
+              (* if first.parent is not None and first.parent.contents.get(first.name) is first:
+                     del first.parent.contents[first.name] *)
+              let s1 :=
+                match oparent (store s first) with
+                | None => s0
+                | Some p =>
+                  match cget (oname (store s first)) (ocont (store s p)) with
+                  | Some x => if N.eqb x first
+                              then set_store s0 (upd (store s) p (with_cont (store s p)
+                                                     (cdel (oname (store s first)) (ocont (store s p)))))
+                              else s0
+                  | None => s0
+                  end
+                end in
+              (* if first in self.rootobjects: self.rootobjects.remove(first) *)
+              let s2 := mkState (store s1) (next s1) (allobj s1) (remove1 first (roots s1)) (depthb s1) (unproc s1) in
+              (* self._addUnprocessedModule(dup): the name must be free now *)
+              match fullpath s2 md with
+              | None => None
+              | Some fn' =>
+                match rget fn' m1 with
+                | None => add_object (set_unproc s2 (unproc s2 ++ [md])) md
+                | Some _ => None                                    (* cannot happen: the key was just deleted *)
+                end
+              end
+            end
+          end
+    end
+  end.
+
+(* the same function before the repairs 3d2c96f + f6d4b31 (kept for the _old_refuted witnesses): the replaced module
+   stays in rootobjects, only `first` leaves unprocessed_modules (ValueError when it is not there) *)
+Definition add_unprocessed_module_old (s : state) (md : id) : option state :=
   match fullpath s md with
   | None => None
   | Some fn =>
@@ -520,14 +590,9 @@ Definition guard_b (s : state) (o : op) : bool :=
       match rget fn (allobj s) with
       | None => true                                                      (* a new name *)
       | Some first =>
-        (* the package wins: nothing changes; or, inside a package, the last wins: the old module must still be
-           unprocessed, with nothing superseded below it.  (Replacing a top-level module
-           leaves it in rootobjects -- C02_dup_root_refuted.) *)
+        (* the package wins: nothing changes; or the last wins: nothing superseded may lie below the old module *)
         (ocls_eqb (ocl (store s first)) CPackage && negb pkg) ||
-        match parent with
-        | None => false
-        | Some q => is_module (ocl (store s first)) && mem_id first (unproc s) && covered_b s first
-        end
+        (is_module (ocl (store s first)) && covered_b s first)
       end
     end
   | AddChild c n q k =>
@@ -560,6 +625,14 @@ Definition guard_b (s : state) (o : op) : bool :=
   | PostProcess => true
   end.
 
+Definition step_old (s : state) (o : op) : option state :=
+  match o with
+  | AddModule pkg n parent =>
+    let (s1, md) := alloc s (if pkg then CPackage else CModule) n parent 0 in
+    add_unprocessed_module_old s1 md
+  | _ => step s o
+  end.
+
 (* run stops at the first failing operation; returns the last good state, the index of the failure and whether
    every executed operation satisfied its guard *)
 Fixpoint run_ops (s : state) (ops : list op) (k : N) (g : bool) : state * option N * bool :=
@@ -584,6 +657,9 @@ Fixpoint nmem (n : name) (l : list name) : bool :=
 Fixpoint nodup_names (l : list name) : bool :=
   match l with [] => true | x :: t => negb (nmem x t) && nodup_names t end.
 
+Fixpoint nodup_ids (l : list id) : bool :=
+  match l with [] => true | x :: t => negb (mem_id x t) && nodup_ids t end.
+
 Definition check_entry (s : state) (e : path * id) : bool :=
   let (p, o) := e in
   let ob := store s o in
@@ -605,7 +681,8 @@ Definition check_entry (s : state) (e : path * id) : bool :=
 Definition inv_check (s : state) : bool :=
   nodup_paths (map fst (allobj s)) &&
   forallb (check_entry s) (allobj s) &&
-  forallb (fun r => registered s r && match oparent (store s r) with None => true | Some _ => false end) (roots s).
+  forallb (fun r => registered s r && match oparent (store s r) with None => true | Some _ => false end) (roots s) &&
+  nodup_ids (roots s).
 
 (* ---- wire ----
    input  := ( op ... )
